@@ -381,9 +381,12 @@ func TestVerif_C34(t *testing.T) {
 		if kit.Thorough() {
 			return []string{"rand", "craft", "multi", "badidx", "craft", "rand"}[si%6]
 		}
+		if si == 18 {
+			return "badidx" // (five per quick run: every kind of wrong index entry once)
+		}
 		return []string{"rand", "craft", "multi", "badidx", "craft", "multi", "rand", "craft", "badidx"}[si%9]
 	}
-	ns := kit.Pick(18, 250)
+	ns := kit.Pick(19, 250)
 	classCount := map[string]int{}
 	for si := 0; si < ns; si++ {
 		seed := kit.Seed()*100000 + 3400 + int64(si)
